@@ -48,7 +48,7 @@ def run(ctx: core.Ctx) -> core.Report:
                 "Subscribes, listener accept/reject policies, instance / announcer stop and start, connection loss, from 3 "
                 "subscribers for 3 eventgroups, counters {0,1,15}, 0..2 endpoint options; every step compared with the Lean "
                 "model; reference semantics checked at every notification and idle state")
-    stateful.run_scenarios(ctx, rep, make, oracle, ctx.n(80, 1500), "c06")
+    stateful.run_scenarios(ctx, rep, make, oracle, ctx.n(200, 3000), "c06")
     return rep
 
 
